@@ -24,7 +24,7 @@ from kopf._cogs.configs import configuration
 from kopf._cogs.structs import bodies, diffs, ephemera, finalizers, patches, references
 from kopf._core.actions import application, execution, lifecycles, loggers, progression, throttlers
 from kopf._core.engines import daemons, indexing, posting
-from kopf._core.intents import causes, registries
+from kopf._core.intents import causes, registries, stoppers
 from kopf._core.reactor import inventory, subhandling
 
 
@@ -276,6 +276,7 @@ async def process_resource_causes(
             memory=memory,
             cause=spawning_cause,
             operator_paused=operator_paused,
+            deleted=raw_event['type'] == 'DELETED',
         )
 
     # If there are any handlers for this resource kind in general, but not for this specific object
@@ -389,6 +390,7 @@ async def process_spawning_cause(
         memory: inventory.ResourceMemory,
         cause: causes.SpawningCause,
         operator_paused: aiotoggles.ToggleSet | None,  # None for tests
+        deleted: bool = False,
 ) -> Collection[float]:
     """
     Spawn/kill all the background tasks of a resource.
@@ -409,6 +411,20 @@ async def process_spawning_cause(
         memory.daemons_memory.live_fresh_body = cause.body
     if cause.reset:
         memory.daemons_memory.idle_reset_time = asyncio.get_running_loop().time()
+
+    # The object is gone, possibly without ever being seen as marked for deletion (e.g. deleted before
+    # the finalizer was added, or after the finalizer was removed by force). No more events will come
+    # to re-check the daemons in the next cycles, so stop them here and now (with backoffs & timeouts).
+    if deleted:
+        await asyncio.gather(*[
+            daemons.stop_daemon(
+                settings=settings,
+                daemon=daemon,
+                reason=stoppers.DaemonStoppingReason.RESOURCE_DELETED,
+            )
+            for daemon in list(memory.daemons_memory.running_daemons.values())
+        ])
+        return []
 
     if finalizers.is_deletion_ongoing(cause.body):
         stopping_delays = await daemons.stop_daemons(
